@@ -19,7 +19,8 @@ Inductive case :=
 | CubicCaseW (mds0 : Z) (reno : bool) (icw imax : Z) (steps : list (op * ob))
 | PacerCase (steps : list (pop * pob))
 | BwCase (bytes delta ret : Z) (pan : bool)
-| SendModeCase (l : list (gate * Z)).
+| SendModeCase (l : list (gate * Z))
+| PaceCase (avail : Z) (hasRecv : bool) (modes : list Z) (tus sent deadline blocked ackonly : Z).
 
 Definition ob_of (s : sender) (ret : Z) (pan : bool) : ob :=
   Ob ret pan (cwnd s) (ssthresh s) (ls s) (la s) (lc s) (exited s) (nacked s) (mds s)
@@ -61,7 +62,8 @@ Inductive obs :=
 | CubicObs (l : list ob)
 | PacerObs (l : list pob)
 | BwObs (ret : Z) (pan : bool)
-| SendModeObs (l : list Z).
+| SendModeObs (l : list Z)
+| PaceObs (r : pace_result).
 
 (** the harness builds the stand-alone pacer with bandwidth 0 and sets the bandwidth afterwards *)
 Definition model_obs (c : case) : obs :=
@@ -71,6 +73,7 @@ Definition model_obs (c : case) : obs :=
   | PacerCase steps => PacerObs (model_psteps (new_pacer 0) (map fst steps))
   | BwCase b d _ _ => match bfd b d with Some v => BwObs v false | None => BwObs 0 true end
   | SendModeCase l => SendModeObs (map (fun x => send_mode (fst x)) l)
+  | PaceCase avail hasRecv modes tus _ _ _ _ => PaceObs (trigger_sending avail hasRecv modes tus)
   end.
 
 Fixpoint all2 {A} (f : A -> A -> bool) (a b : list A) : bool :=
@@ -87,5 +90,8 @@ Definition check_case (c : case) : bool :=
   | PacerCase steps, PacerObs l => all2 pob_eqb l (map snd steps)
   | BwCase _ _ ret pan, BwObs r p => (r =? ret) && beqb p pan
   | SendModeCase l, SendModeObs m => all2 Z.eqb m (map snd l)
+  | PaceCase _ _ _ _ sent deadline blocked ackonly, PaceObs r =>
+    pr_ok r && (pr_sent r =? sent) && (pr_deadline r =? deadline) && (pr_blocked r =? blocked) && (pr_ackonly r =? ackonly) &&
+    match pr_rest r with [] => true | _ => false end
   | _, _ => false
   end.
